@@ -376,6 +376,9 @@ func init() {
 		NotDecided:  []string{"numerical equality with a reference aggregator", "expression arithmetic and value coercions", "Sequence.UpdateValue offset arithmetic and Merge alignment (values)"},
 		Assumptions: []string{"go/ssa models control flow", "modsum external tables"},
 		Rules: []func(*Ctx){func(c *Ctx) { ruleC01a(c, "C01.a") }, func(c *Ctx) { ruleC01b(c, "C01.b") }, func(c *Ctx) { ruleC01c(c, "C01.c") }, func(c *Ctx) { ruleC01d(c, "C01.d") }, func(c *Ctx) { ruleC01f(c, "C01.f") }, func(c *Ctx) { ruleExprAdvances(c, "C01.h") }, func(c *Ctx) {
+			c.describe("C01.j", "= C17.h: a query coalesced with others is offered every row and the shared scan goes on while any of them wants more")
+			ruleC17h(c, "C01.j")
+		}, func(c *Ctx) {
 			c.describe("C01.i", "= C18.b lock regions: file store and memstore copy are captured in one critical section, so a flush cannot make a scan count a point twice")
 			ruleLockRegions(c, "C01.i")
 		}, func(c *Ctx) {
